@@ -4,17 +4,24 @@ From Coq Require Import List NArith Bool.
 From UV Require Import Base.Value Model.Uasm Model.UasmValue Proofs.Uasm Proofs.UasmValue.
 Import ListNotations.
 
-(** Framing of the current reader (cascade of split_once on bare marker words): reading back what
-    was written gives every section line back, PROVIDED no section body contains, as a substring,
-    the marker word that ends it. *)
+(** Framing of the current reader (whole-line section markers, /repo 0f91cb1): reading back what
+    was written gives every section line back.  No premise about the CONTENTS of the sections:
+    only that the written lines are lines (newline-free, not blank, no trailing blank) and contain
+    some character other than A-Z and blank, which every line written by to_uasm does (checked on
+    real assemblies by the tie on every run). *)
 Theorem C17_framing_roundtrip : forall a,
-  sections_wf a = true -> no_marker_in_bodies a = true -> from_uasm (to_uasm a) = inr (reread a).
+  sections_wf a = true -> written_shape a = true -> from_uasm (to_uasm a) = inr (reread a).
 Proof. exact framing_roundtrip. Qed.
 
-(** ... and without that premise the current reader is wrong: the program "DEPENDENCIES". *)
-Theorem C17_framing_refuted : exists a, sections_wf a = true /\
-  from_uasm (to_uasm a) <> inr (reread a) /\ from_uasm (to_uasm a) <> inr a.
-Proof. exact framing_refuted. Qed.
+(** Record of the defect repaired by 0f91cb1 (model of the reader before it: bare marker words
+    found with split_once): correct only if no section body contains the marker that ends it ... *)
+Theorem C17_framing_roundtrip_pre : forall a,
+  sections_wf a = true -> no_marker_in_bodies a = true -> from_uasm_pre (to_uasm a) = inr (reread a).
+Proof. exact framing_roundtrip_pre. Qed.
+(** ... and wrong without: the program "DEPENDENCIES" (whose written lines have the right shape). *)
+Theorem C17_framing_refuted_pre : exists a, sections_wf a = true /\ written_shape a = true /\
+  from_uasm_pre (to_uasm a) <> inr (reread a) /\ from_uasm_pre (to_uasm a) <> inr a.
+Proof. exact framing_refuted_pre. Qed.
 
 (** Values as JSON: the current (un)tagging is ambiguous.  Records of the defects: *)
 Theorem C17_value_json_refuted_string :
@@ -31,11 +38,12 @@ Proof. exact value_json_refuted_map. Qed.
 Example C17_nonvacuous :
   let a := Sections [[123;125]] [] [[70;32;48]] [[102;32;49]; [32;32;99;111;109;109;101;110;116;58;32;123;125]]
              [[91;93]] [] [] [[48;32;91;93]; []; [49]] [] [] [[34;97;34]] in
-  sections_wf a = true /\ no_marker_in_bodies a = true /\ from_uasm (to_uasm a) = inr (reread a).
+  sections_wf a = true /\ written_shape a = true /\ from_uasm (to_uasm a) = inr (reread a).
 Proof. vm_compute. repeat split; reflexivity. Qed.
 
 Print Assumptions C17_framing_roundtrip.
-Print Assumptions C17_framing_refuted.
+Print Assumptions C17_framing_roundtrip_pre.
+Print Assumptions C17_framing_refuted_pre.
 Print Assumptions C17_value_json_refuted_string.
 Print Assumptions C17_value_json_refuted_complex.
 Print Assumptions C17_value_json_refuted_map.
